@@ -83,7 +83,38 @@ func checkC19(ctx *Ctx) {
 					}
 				}
 				for _, ks := range orders {
-					ctx.diff(w, "c19.combine", tot >= 2, "combine", strings.Join(ks, US), kvlField(streams))
+					real, _, _ := ctx.diff(w, "c19.combine", tot >= 2, "combine", strings.Join(ks, US), kvlField(streams))
+					// the property on the real result, whatever the model says: every element of the product once
+					cols := map[string][]string{}
+					for _, it := range plist(real) {
+						if kv := strings.SplitN(it, RS, 2); len(kv) == 2 && kv[1] != "" {
+							cols[kv[0]] = strings.Split(kv[1], GS)
+						}
+					}
+					want, n := 1, -1
+					for k := 0; k < np; k++ {
+						want *= lens[k]
+						if n < 0 || len(cols[names[k]]) < n {
+							n = len(cols[names[k]])
+						}
+					}
+					rows := map[string]bool{}
+					aligned := true
+					for k := 0; k < np; k++ {
+						if len(cols[names[k]]) != n {
+							aligned = false
+						}
+					}
+					for i := 0; i < n && aligned; i++ {
+						row := ""
+						for k := 0; k < np; k++ {
+							row += cols[names[k]][i] + "|"
+						}
+						rows[row] = true
+					}
+					if !aligned || n != want || len(rows) != want {
+						ctx.Res.Violate(Violation{What: fmt.Sprintf("combine over streams of lengths %v (key order %v) returned %d aligned tuples of which %d are distinct; the Cartesian product has %d", lens, ks, n, len(rows), want), Class: "c19.product", Witness: []interface{}{lens, ks}})
+					}
 				}
 				return
 			}
